@@ -104,8 +104,12 @@ func ParseLog(out string) []LogEntry {
 				break
 			}
 		}
-		msg := strings.Join(lines[j:], "\n")
-		msg = strings.TrimPrefix(msg, "\t")
+		// the message is printed indented by one tab (every line, or — older format — only the first)
+		ml := append([]string{}, lines[j:]...)
+		for k := range ml {
+			ml[k] = strings.TrimPrefix(ml[k], "\t")
+		}
+		msg := strings.Join(ml, "\n")
 		// the entry ends with "\n" from the format and "\n" from Println
 		msg = strings.TrimSuffix(msg, "\n")
 		msg = strings.TrimSuffix(msg, "\n")
